@@ -1069,6 +1069,20 @@ def _filter(pe, st, args, t):
     return ("iter", tuple(out), 0)
 
 
+@pmodel("std::iter::Iterator::take_while", "std::iter::Iterator::skip_while")
+def _take_while(pe, st, args, t):
+    it = _as_iter(pe, st, args[0])
+    if it is None or (len(it) > 3 and it[3] == ("cycle",)):
+        raise _Abort("top", "take_while()/skip_while() of an unknown iterator")
+    vals = list(it[1][it[2]:])
+    k = 0
+    while k < len(vals) and _truth(pe.invoke_closure(st, args[1], [("ref", ("const", vals[k]))]), "take_while"):
+        k += 1
+    if (t.get("callee") or "").endswith("take_while"):
+        return ("iter", tuple(vals[:k]), 0)
+    return ("iter", tuple(vals[k:]), 0)
+
+
 @pmodel("std::iter::Iterator::map")
 def _map(pe, st, args, t):
     it = _as_iter(pe, st, args[0])
@@ -1113,7 +1127,7 @@ def _skip(pe, st, args, t):
     return ("iter", tuple(a[1][a[2] + n[2]:]), 0)
 
 
-@pmodel("std::iter::range::<impl std::iter::Iterator for std::ops::Range<A>>::next",
+@pmodel("std::iter::Iterator::next", "std::iter::range::<impl std::iter::Iterator for std::ops::Range<A>>::next",
         "std::iter::range::<impl std::iter::Iterator for std::ops::RangeInclusive<A>>::next",
         "<std::array::IntoIter<T, N> as std::iter::Iterator>::next",
         "<std::iter::Enumerate<I> as std::iter::Iterator>::next",
@@ -1211,6 +1225,46 @@ def _partial_ne(pe, st, args, t):
     raise _Abort("top", "ne() on values the evaluator cannot compare")
 
 
+def _plain_known(pe, st, v, depth=0):
+    """a value made of known scalars only (through references, tuples, arrays), rendered for comparison; else None"""
+    v = _deref_all(pe, st, v)
+    if v == TOP or depth > 4:
+        return None
+    if v[0] in ("int", "bool", "char", "enum", "float"):
+        return v
+    if v[0] in ("tuple", "array"):
+        xs = [_plain_known(pe, st, x, depth + 1) for x in v[1]]
+        return None if any(x is None for x in xs) else (v[0], tuple(xs))
+    if v[0] == "str":
+        return v
+    return None
+
+
+@pmodel("core::tuple::<impl std::cmp::PartialEq for (U, T)>::eq", "core::tuple::<impl std::cmp::PartialEq for (U, T)>::ne",
+        "core::tuple::<impl std::cmp::PartialEq for (V, U, T)>::eq", "core::tuple::<impl std::cmp::PartialEq for (V, U, T)>::ne",
+        "core::array::equality::<impl std::cmp::PartialEq<[U; N]> for [T; N]>::eq",
+        "core::array::equality::<impl std::cmp::PartialEq<[U; N]> for [T; N]>::ne")
+def _tuple_eq(pe, st, args, t):
+    a, b = _plain_known(pe, st, args[0]), _plain_known(pe, st, args[1])
+    if a is None or b is None:
+        raise _Abort("top", "equality of values the evaluator cannot compare")
+    eq = a == b
+    return mk_bool(eq if (t.get("callee") or "").endswith("::eq") else not eq)
+
+
+@pmodel("core::slice::<impl [T]>::windows")
+def _windows(pe, st, args, t):
+    v = _deref(pe, st, args[0])
+    n = args[1]
+    items = _seq_items(pe, v)
+    if items is None or n == TOP or n[0] != "int":
+        raise _Abort("top", "windows() on an unknown slice")
+    if n[2] == 0:
+        raise _Abort("diverge", "windows(0)")
+    k = n[2]
+    return ("iter", tuple(("ref", ("const", ("array", tuple(items[a:a + k])))) for a in range(0, max(0, len(items) - k + 1))), 0)
+
+
 @pmodel("core::slice::<impl [T]>::split_at", "core::slice::<impl [T]>::split_at_mut")
 def _split_at(pe, st, args, t):
     base, k = args
@@ -1300,6 +1354,32 @@ def _fold(pe, st, args, t):
     return acc
 
 
+@pmodel("std::iter::Iterator::count")
+def _count(pe, st, args, t):
+    it = _as_iter(pe, st, args[0])
+    if it is None or (len(it) > 3 and it[3] == ("cycle",)):
+        raise _Abort("top", "count() of an unknown iterator")
+    return mk_int("usize", len(it[1]) - it[2])
+
+
+@pmodel("std::iter::Iterator::sum")
+def _sum(pe, st, args, t):
+    it = _as_iter(pe, st, args[0])
+    ty = t.get("dest_ty") or ""
+    if it is None or (len(it) > 3 and it[3] == ("cycle",)):
+        raise _Abort("top", "sum() of an unknown iterator")
+    tot = 0
+    for x in it[1][it[2]:]:
+        x = _deref_all(pe, st, x)
+        if x == TOP or x[0] != "int":
+            raise _Abort("top", "sum() of unknown integers")
+        tot += x[2]
+    from .fold import fits
+    if not fits(ty, tot):
+        raise _Abort("diverge", "sum() overflows %s" % ty)
+    return mk_int(ty, tot)
+
+
 @pmodel("std::iter::Iterator::collect")
 def _collect(pe, st, args, t):
     it = _as_iter(pe, st, args[0])
@@ -1371,6 +1451,42 @@ def _slice_get(pe, st, args, t):
     if base[1][0] == "place":
         return some(("ref", ("place", base[1][1], base[1][2], tuple(base[1][3]) + ({"cidx": idx[2], "fe": False},))))
     return some(("ref", ("const", pe._project(st, 0, tgt, [{"cidx": idx[2], "fe": False}]))))
+
+
+@pmodel("core::slice::<impl [T]>::copy_from_slice", "core::slice::<impl [T]>::clone_from_slice")
+def _copy_from_slice(pe, st, args, t):
+    r, src = args
+    dv = _deref(pe, st, r)
+    sv = _deref(pe, st, src)
+    items = _seq_items(pe, sv)
+    if items is None and sv != TOP and sv[0] in ("symvec", "symslice"):
+        lo, hi = (0, sv[1]) if sv[0] == "symvec" else (sv[1], sv[2])
+        items = [("sbyte", i) for i in range(lo, hi)]
+    if r == TOP or r[0] != "ref" or dv == TOP or items is None:
+        raise _Abort("top", "copy_from_slice on unknown slices")
+    if dv[0] == "hview":
+        n = dv[3] - dv[2]
+    elif dv[0] == "harr":
+        n = pe.heap.length(dv)
+    elif dv[0] == "array":
+        n = len(dv[1])
+    else:
+        raise _Abort("top", "copy_from_slice into an unknown slice")
+    if n != len(items):
+        raise _Abort("diverge", "copy_from_slice: source length %d, destination length %d" % (len(items), n))
+    if dv[0] == "hview":
+        for i, x in enumerate(items):
+            pe.heap.put(("harr", dv[1]), dv[2] + i, x)
+    elif dv[0] == "harr":
+        for i, x in enumerate(items):
+            pe.heap.put(dv, i, x)
+    else:
+        if r[1][0] != "place":
+            raise _Abort("top", "copy_from_slice into a constant")
+        base = r[1]
+        for i, x in enumerate(items):
+            pe.store_ptr(st, ("place", base[1], base[2], tuple(base[3]) + ({"cidx": i, "fe": False},)), x)
+    return UNIT
 
 
 @pmodel("core::slice::<impl [T]>::fill")
